@@ -38,50 +38,7 @@ impl Tier {
     }
 }
 
-/// What an oracle says about a case that satisfies the property.
-#[derive(Debug, Default, Clone)]
-pub struct Pass {
-    pub nontrivial: bool,
-    pub classes: Vec<&'static str>,
-}
-impl Pass {
-    pub fn new(nontrivial: bool) -> Self {
-        Pass { nontrivial, classes: Vec::new() }
-    }
-    pub fn class(mut self, c: &'static str) -> Self {
-        self.classes.push(c);
-        self
-    }
-    pub fn class_if(mut self, cond: bool, c: &'static str) -> Self {
-        if cond {
-            self.classes.push(c);
-        }
-        self
-    }
-}
-
-/// A counter-example: `sig` identifies the failing call site / input shape (used to match known findings).
-#[derive(Debug, Clone)]
-pub struct Violation {
-    pub sig: String,
-    pub msg: String,
-}
-impl Violation {
-    pub fn new(sig: impl Into<String>, msg: impl Into<String>) -> Self {
-        Violation { sig: sig.into(), msg: msg.into() }
-    }
-    pub fn from_panic(ctx: &str, p: &crate::util::Panic) -> Self {
-        Violation { sig: p.signature(), msg: format!("{}: {}", ctx, p.describe()) }
-    }
-}
-pub type CheckResult = Result<Pass, Violation>;
-
-#[macro_export]
-macro_rules! viol {
-    ($sig:expr, $($arg:tt)*) => {
-        $crate::runner::Violation::new($sig, format!($($arg)*))
-    };
-}
+pub use crate::verdict::{CheckResult, Pass, Violation};
 
 #[derive(Debug, Clone)]
 pub struct Known {
